@@ -210,6 +210,11 @@ func (c *connection) onProcess(onConnect OnConnect, onRequest OnRequest) (proces
 				}
 			}
 			c.unlock(connecting)
+			// the connection may have been closed between the IsActive check above and the unlock:
+			// onDisconnect then failed to get the connecting lock and left the call to us.
+			if !c.IsActive() {
+				c.onDisconnect()
+			}
 		}
 	START:
 		// The `onRequest` must be executed at least once if conn have any readable data,
